@@ -2,7 +2,7 @@
    The reference decoder e5_decode (Spec/E5.v) accepts 1..3 length bytes whatever the magnitude,
    every format code and arbitrary nesting; it shares nothing with the model of the library. *)
 From SG Require Import Base.Prelude Base.Kinds Base.Float Gen.VarConsts Spec.E5 Model.Secs2 Model.Denote Model.Admits.
-From SG Require Import Proofs.FloatProofs Proofs.Secs2Sim.
+From SG Require Import Proofs.FloatProofs Proofs.Secs2Sim Base.PyRt Gen.PyVarHdr Proofs.PyVarHdrProofs.
 From Coq Require Import Lia.
 Open Scope N_scope.
 
@@ -60,3 +60,13 @@ Qed.
 Theorem C02_anyvalue_takes_every_kind : allowed_has anyvalue_types DArr = true /\ forall k, allowed_has anyvalue_types (DScal k) = true.
 Proof. split; [vm_compute; reflexivity|]. intros [| | | |[| | | | | | | | |]]; vm_compute; reflexivity. Qed.
 Print Assumptions C02_anyvalue_takes_every_kind.
+
+(* the header reader of the decoder, translated from the source on every run, is the model's: for every byte string, every position and
+   every expected format code (None = a Dynamic) - in particular for encodings with more length bytes than necessary *)
+Theorem C02_header_reader_is_model : forall fc data p,
+  same_ok (base_decode_item_header (fc_z fc) data (Z.of_nat p))
+          (do (rest, code, len, hl) <- decode_item_header fc (skipn p data); Ok (Z.of_nat p + Z.of_N hl, Z.of_N code, Z.of_N len)%Z).
+Proof. exact base_decode_item_header_is_model. Qed.
+Print Assumptions C02_header_reader_is_model.
+Example C02_header_reader_sample : base_decode_item_header 44 [0xB3; 0; 0; 2; 7; 7] 0 = Ok (4, 44, 2)%Z /\ base_decode_item_header 44 [0xB3; 0; 0] 0 = Err EIndex.
+Proof. split; vm_compute; reflexivity. Qed.
